@@ -16,10 +16,11 @@ RULE = ("extrapolate=true for Linear, Bilinear and non-periodic CubicSpline at Q
         "form; spline: the end cubic is recovered from 4 exact in-range samples of the end interval and evaluated at the outside "
         "query. extra: results with the flag on and off compared for in-range queries (exact at Q, bit-for-bit at f64, incl. the "
         "floats adjacent to the range ends). non-trivial = case with a query outside the range")
-PARTIAL = ["'up to rounding' outside the range: for Linear it is C06_linear_rounding ((7u+6u^2)*(|slope*(x-x1)|+|y1|) under the standard model of "
-           "fp arithmetic; the f64 oracle holds the crate to that scale); for Bilinear and the spline no rounding bound is proved outside the "
-           "range (float results are compared with the exact continuation within a scaled tolerance); the exact statement is proved over "
-           "ordered fields and checked exactly at Q"]
+PARTIAL = ["'up to rounding' outside the range: for Linear it is C06_linear_rounding ((7u+6u^2)*(|slope*(x-x1)|+|y1|)) and for Bilinear "
+           "C06_bilinear_rounding (three nested calc_frac at any query, also beyond a corner), both under the standard model of fp arithmetic "
+           "(overflow/underflow excluded); the f64 runs compare Linear and Bilinear bit for bit with the model and hold Linear to that scale; "
+           "for the spline no rounding bound is proved outside the range (float results are compared with the exact continuation within a "
+           "scaled tolerance); the exact statement is proved over ordered fields and checked exactly at Q"]
 ASSUMPTIONS = ["non-NaN f64 comparison is a linear order"]
 
 SPL_BCS = ["nak", "nat", "cla"]
